@@ -346,6 +346,13 @@ def bool_forms(form, vars_):
                 r[-1] = False
             return r
         return x, val
+    if form in ("trues", "falses"):
+        # many Python constants: "trues" hands in the literal True at every position i with i % 3 != 2 (so neighbouring
+        # positions are both constant), "falses" the literal False at every i with i % 3 == 0
+        lit = (form == "trues")
+        pick = (lambda i: i % 3 != 2) if lit else (lambda i: i % 3 == 0)
+        x = [lit if pick(i) else v for i, v in enumerate(vars_)]
+        return x, (lambda a: [lit if pick(i) else b for i, b in enumerate(a)])
     if form == "tied":
         # neighbouring positions hand in the SAME variable object (auxiliary variables must be allocated per position, not per
         # distinct operand)
